@@ -190,22 +190,35 @@ Theorem C01_wf_native_char : forall n v,
   wf_native n v = rust_native n v && negb (domain_excl n v).
 Proof. exact wf_native_char. Qed.
 
-(* each exclusion is accepted by the writer and NOT read back by the driver's own reader: these
+(* EVERY excluded value that the writer accepts is not read back by the driver's own reader: these
    inputs are outside "every value of that type", the writer just does not validate them *)
-Theorem C01_outside_ascii : exists v b,
-  rust_native NAscii v = true /\ domain_excl NAscii v = true /\
-  ser_value true (TNative NAscii) v = Ok b /\ deser_value (TNative NAscii) b = Err DE_ExpectedAscii.
-Proof. exact outside_ascii. Qed.
+Theorem C01_outside_ascii : forall v ws b,
+  rust_native NAscii v = true -> domain_excl NAscii v = true ->
+  ser_value ws (TNative NAscii) v = Ok b -> deser_value (TNative NAscii) b = Err DE_ExpectedAscii.
+Proof. exact outside_ascii_all. Qed.
 
-Theorem C01_outside_time : exists v b,
-  rust_native NTime v = true /\ domain_excl NTime v = true /\
-  ser_value true (TNative NTime) v = Ok b /\ deser_value (TNative NTime) b = Err DE_ValueOverflow.
-Proof. exact outside_time. Qed.
+Theorem C01_outside_time : forall v ws b,
+  rust_native NTime v = true -> domain_excl NTime v = true ->
+  ser_value ws (TNative NTime) v = Ok b -> deser_value (TNative NTime) b = Err DE_ValueOverflow.
+Proof. exact outside_time_all. Qed.
 
-Theorem C01_outside_varint : exists v b,
-  rust_native NVarint v = true /\ domain_excl NVarint v = true /\
-  ser_value true (TNative NVarint) v = Ok b /\ deser_value (TNative NVarint) b = Ok CEmpty.
-Proof. exact outside_varint. Qed.
+Theorem C01_outside_varint : forall v ws b,
+  rust_native NVarint v = true -> domain_excl NVarint v = true ->
+  ser_value ws (TNative NVarint) v = Ok b -> b = [] /\ deser_value (TNative NVarint) b = Ok CEmpty.
+Proof. exact outside_varint_all. Qed.
+
+(* non-vacuity: each exclusion has an accepted instance *)
+Example C01_ex_outside :
+  (rust_native NAscii (CText [195; 169]) = true /\ domain_excl NAscii (CText [195; 169]) = true /\
+   ser_value true (TNative NAscii) (CText [195; 169]) = Ok [195; 169]) /\
+  (rust_native NTime (CTime (-1)) = true /\ domain_excl NTime (CTime (-1)) = true /\
+   ser_value true (TNative NTime) (CTime (-1)) = Ok [255; 255; 255; 255; 255; 255; 255; 255]) /\
+  (rust_native NTime (CTime 86400000000000) = true /\ domain_excl NTime (CTime 86400000000000) = true) /\
+  (rust_native NVarint (CVarint []) = true /\ domain_excl NVarint (CVarint []) = true /\
+   ser_value true (TNative NVarint) (CVarint []) = Ok []) /\
+  domain_excl NTime (CTime 0) = false /\ domain_excl NVarint (CVarint [0]) = false /\
+  domain_excl NAscii (CText [97]) = false /\ domain_excl NInt (CInt 1) = false.
+Proof. repeat split; vm_compute; reflexivity. Qed.
 
 (* ---------------------------------------------------------------------------------------- *)
 (* Totality: [wf] is what serialisation accepts (up to the i32 size limits)                   *)
@@ -386,6 +399,9 @@ Example C01_ex_typed :
   let v := TSeq [TTup [TInt 7; TNone]; TTup [TInt (-1); TSome (TBytes [97])]] in
   embed k t v = Some (CVal (CList [CTuple [Some (CInt 7); None]; CTuple [Some (CInt (-1)); Some (CText [97])]])) /\
   typed_check k t = true /\
+  (* the premises of C01_typed_roundtrip hold for this value *)
+  wf t (CList [CTuple [Some (CInt 7); None]; CTuple [Some (CInt (-1)); Some (CText [97])]]) = true /\
+  known_class t (CList [CTuple [Some (CInt 7); None]; CTuple [Some (CInt (-1)); Some (CText [97])]]) = false /\
   typed_write k true t v
     = Ok [0;0;0;37; 0;0;0;2; 0;0;0;12; 0;0;0;4; 0;0;0;7; 255;255;255;255;
           0;0;0;13; 0;0;0;4; 255;255;255;255; 0;0;0;1; 97] /\
